@@ -6,11 +6,19 @@ correspondence: the Lean decision table (GSV/Model/Validity.lean, run on Rat) ag
   on / just outside every end of every interval, mixed with far-out, random and doubly-wrong values) comparing
   "constructor raises <arg, error case>" with `firstError`; dimension changes after construction against
   `acceptsAfterSetDim`; and the composition the closure theorems talk about (cov_spatial = covariance o norm o
-  linear map, cov_yadrenko = covariance o chordal = covariance o Euclidean distance of sphere points, cov_axis).
+  linear map, cov_yadrenko = covariance o chordal = covariance o Euclidean distance of sphere points, cov_axis) for
+  random `rescale` and random values of every optional argument that has a `_rescaled` counterpart; the TPL classes
+  against the Lean model of their truncation scales / two-term correlation / var_factor (`tplScales`, `tplCor`,
+  `tplVarFactor`, on Float) for every combination of len_low (0, snapped, below / equal / above len_scale), rescale
+  (default, < 1, > 1) and hurst, through correlation / covariance / cov_spatial / cov_yadrenko.
 search: minimum eigenvalue of covariance matrices built with the real API on lattices, clusters, random and sphere
   points at the edges of every bound, for plain / anisotropic-rotated / temporal / lat-lon configurations; sign of the
   radial Fourier transform of the compactly supported models by quadrature; cor(0) = 1 and |cor| <= 1 on grids;
-  the stale-bounds history of finding D8.
+  the stale-bounds history of finding D8.  Every scan cycles `rescale` (default, < 1, > 1) and the optional
+  arguments with a `_rescaled` counterpart (len_low of the TPL classes: 0, 0.1, 1, 5 times len_scale) through all
+  their combinations; the TPL classes are compared with the quadrature of their defining superposition over the
+  rescaled truncation interval (independent oracle); every class must be invariant under (len_scale, rescale = s,
+  lengths) -> (len_scale / s, rescale = 1, lengths / s) and every `X_rescaled` property must equal X / rescale.
 """
 import itertools
 import math
@@ -35,8 +43,12 @@ ASSUMPTIONS = [
     "the closure theorems are about exact real arithmetic; rounding in numpy's evaluation of the closed forms is outside the theorems"
     " (the search uses the threshold -1e-8*n*var on eigenvalues)",
     "NaN parameters are outside the decision table (every comparison with NaN is False, so the real constructor accepts them)",
+    "TPL classes: the Lean model takes the values of the untruncated terms tplstable_cor(r, scale, H, alpha) as numbers; their identification"
+    " with tplMode = 2H / scale^2H * int_0^scale lam^(2H-1) exp(-(r/lam)^alpha) dlam (the object of tplCor_eq_mixture) is not proved; it is"
+    " explored by mix_scan (quadrature of the defining superposition, 2e-10) and by C03's closed-form comparison",
 ]
 DISAGREEMENT_IS_VIOLATION = False
+_FOCUS = set()     # classes named by the disagreements of the last correspondence run: the deep search concentrates on them
 
 
 def gs():
@@ -78,6 +90,73 @@ def bound_json(b):
 
 CONFIGS = [("plain", {}), ("temporal", {"temporal": True}), ("latlon", {"latlon": True}),
            ("latlon+temporal", {"latlon": True, "temporal": True})]
+
+
+# ---------------------------------------------------------------------------------------------------------------
+# rescale / `_rescaled` configuration space shared by the correspondence and every search
+# ---------------------------------------------------------------------------------------------------------------
+TPL_ALPHA = {"TPLGaussian": 2.0, "TPLExponential": 1.0, "TPLStable": None}   # mode exponent (None: the `alpha` argument)
+RESCALES = [None, 2.0, 0.4, 3.7, 1.0, 0.13]     # None = the class default
+LOW_FACTORS = [0.0, 1.0, 0.1, 5.0]              # value of a rescalable optional length as a multiple of len_scale (0: untouched)
+_RESCALED_CACHE = {}
+
+
+def rescaled_names(cls):
+    """names X such that the class has a property `X_rescaled` (discovered, not listed): len, len_low, len_up, ..."""
+    if cls not in _RESCALED_CACHE:
+        t = getattr(gs(), cls)
+        _RESCALED_CACHE[cls] = sorted(n[:-len("_rescaled")] for n in dir(t) if n.endswith("_rescaled"))
+    return _RESCALED_CACHE[cls]
+
+
+def rescalable_opt_args(cls):
+    """optional constructor arguments that are lengths: they have a `_rescaled` counterpart"""
+    if ("opt", cls) in _RESCALED_CACHE:
+        return _RESCALED_CACHE[("opt", cls)]
+    _RESCALED_CACHE[("opt", cls)] = out = _rescalable_opt_args(cls)
+    return out
+
+
+def _rescalable_opt_args(cls):
+    with warnings.catch_warnings():
+        warnings.simplefilter("ignore")
+        try:
+            opt = list(getattr(gs(), cls)(dim=1).opt_arg)
+        except Exception:
+            return []
+    return [a for a in opt if a in rescaled_names(cls)]
+
+
+class Cycle:
+    """deterministic walk through all (rescale, length factor) combinations: the two lists have coprime-ish strides, so
+    any window of len(RESCALES) * len(LOW_FACTORS) consecutive draws contains every combination"""
+
+    def __init__(self, start=0):
+        self.i = int(start)
+
+    def next(self):
+        i = self.i
+        self.i += 1
+        return RESCALES[i % len(RESCALES)], LOW_FACTORS[(i // len(RESCALES) + i) % len(LOW_FACTORS)]
+
+
+def apply_cycle(cls, kw, ls, cyc):
+    """put the next (rescale, length factor) combination into the constructor arguments kw (len_scale = ls)"""
+    resc, lowf = cyc.next()
+    if resc is not None:
+        kw["rescale"] = resc
+    if lowf > 0:
+        for a in rescalable_opt_args(cls):
+            kw[a] = lowf * ls
+    return kw
+
+
+def snap_window(m):
+    """N3 (known finding): a TPL class with a lower cut-off evaluates its two terms with separate isclose(r / scale, 0)
+    snaps, so lags in (0, 1e-8 * upper scale] are corrupted.  The window is computed from the raw attributes."""
+    if not hasattr(m, "len_low") or m.len_low <= 0:
+        return 0.0
+    return 1e-8 * (m.len_low + m.len_scale) / m.rescale * (1 + 1e-9)
 
 
 # ---------------------------------------------------------------------------------------------------------------
@@ -274,6 +353,12 @@ def rand_model(rng, cls, d, **extra):
     if not extra.get("latlon"):
         kw["anis"] = [float(10 ** rng.uniform(-1, 1)) for _ in range(d - 1)]
         kw["angles"] = [float(rng.uniform(-np.pi, np.pi)) for _ in range(d * (d - 1) // 2)]
+    # non-default rescale and non-zero rescalable optional lengths (len_low of the TPL classes) in most cases
+    if rng.rand() < 0.75:
+        kw["rescale"] = float(rng.choice([0.13, 0.4, 2.0, 3.7]))
+    for a in rescalable_opt_args(cls):
+        if rng.rand() < 0.6:
+            kw[a] = float(rng.choice([0.1, 1.0, 5.0])) * kw["len_scale"]
     kw.update(extra)
     with warnings.catch_warnings():
         warnings.simplefilter("ignore")
@@ -311,8 +396,15 @@ def corr_composition(ctx, dist, dis, n):
         rad = np.linalg.norm(A @ (x - y), axis=0)
         if not close(m.cov_spatial(x - y), m.covariance(rad)):
             dis.append({"what": "composition:cov_spatial", "cls": cls, "dim": dd})
-        if not close(m.covariance(rad), m.var * m.correlation(rad)) or not close(m.correlation(rad), m.cor(rad / m.len_rescaled)):
+        # `cor` is the normalised correlation WITHOUT truncation lengths: the second relation is only meant for models whose
+        # rescalable optional lengths are zero (TPL with len_low > 0 is tied to its mixture in corr_tplmix instead)
+        plain = all(getattr(m, a) == 0 for a in rescalable_opt_args(cls))
+        if not close(m.covariance(rad), m.var * m.correlation(rad)) or (plain and not close(m.correlation(rad), m.cor(rad / m.len_rescaled))):
             dis.append({"what": "composition:covariance=var*cor(r/len_rescaled)", "cls": cls, "dim": dd})
+        if not close(m.len_rescaled, m.len_scale / m.rescale, 1e-15):
+            dis.append({"what": "composition:len_rescaled", "cls": cls, "dim": dd})
+        dist["composition:rescale!=default"] = dist.get("composition:rescale!=default", 0) + int(m.rescale != m.default_rescale())
+        dist["composition:rescalable-length>0"] = dist.get("composition:rescalable-length>0", 0) + int(not plain)
         r = np.abs(rng.randn(5)) * 3
         for ax in range(dd):
             want = m.covariance(r) if ax == 0 else m.covariance(r / m.anis[ax - 1])
@@ -347,6 +439,135 @@ def corr_composition(ctx, dist, dis, n):
     return ev
 
 
+def corr_tplmix(ctx, dist, dis, n_random):
+    """TPL classes against `tplScales` / `tplCor` / `tplVarFactor` of GSV/Model/Validity.lean (run on Float): the
+    truncation scales are the RESCALED lengths, the correlation is the two-term combination of the untruncated model at
+    those scales (values of `tplstable_cor` are handed to the model as numbers), var_factor the total weight.  A grid
+    over len_low (0, snapped by isclose, just not snapped, 0.1 / 1 / 5 x len_scale) x rescale (default, < 1, > 1) x hurst
+    (edges and interior) x class, then random cases; dims 1-3, anisotropic/rotated, temporal and lat-lon routes."""
+    from gstools.tools.special import tplstable_cor
+    from gstools.tools.geometric import matrix_isometrize
+    g = gs()
+    rng = np.random.RandomState(ctx.seed + 4)
+    f1 = lambda x: proto.fbits([float(x)])[0]
+    hursts = [nudge(0.1, 1), 0.25, 0.5, 0.8, nudge(1.0, -1)]
+    cases = []
+    i = 0
+    for cls in TPL_ALPHA:
+        for lowmode in ("zero", "snap", "nosnap", 0.1, 1.0, 5.0):
+            for resc in RESCALES:
+                ls = [0.7, 9.0, 2.0][i % 3]
+                H = hursts[i % len(hursts)]
+                cases.append((cls, ls, lowmode, resc, H, ["plain", "aniso", "temporal", "latlon", "latlon+temporal"][i % 5], 1 + i % 3))
+                i += 1
+    for _ in range(n_random):
+        cls = list(TPL_ALPHA)[rng.randint(3)]
+        cases.append((cls, float(10 ** rng.uniform(-1, 1.3)), float(10 ** rng.uniform(-2, 1)), float(10 ** rng.uniform(-1, 1)),
+                      float(rng.uniform(0.1001, 0.9999)), ["plain", "aniso", "temporal", "latlon", "latlon+temporal"][rng.randint(5)],
+                      int(rng.randint(1, 4))))
+    ops, meta = [], []
+    for cls, ls, lowmode, resc, H, cfg, d in cases:
+        kw = dict(len_scale=ls, hurst=H, var=float(rng.uniform(0.5, 3)))
+        if resc is not None:
+            kw["rescale"] = resc
+        s_eff = 1.0 if resc is None else resc
+        kw["len_low"] = {"zero": 0.0, "snap": 0.7e-8 * s_eff, "nosnap": 1.5e-8 * s_eff}.get(lowmode, None)
+        if kw["len_low"] is None:
+            kw["len_low"] = float(lowmode) * ls
+        if cls == "TPLStable":
+            kw["alpha"] = float(rng.choice([0.5, 1.0, 1.5, 2.0]))
+        if cfg in ("latlon", "latlon+temporal"):
+            kw.update(latlon=True, temporal=cfg.endswith("temporal"), geo_scale=float(rng.choice([1.0, 6371.0])))
+            if kw["temporal"]:
+                kw["anis"] = [float(10 ** rng.uniform(-0.7, 0.7))]
+        else:
+            dd = d + int(cfg == "temporal")
+            kw.update(dim=dd, temporal=cfg == "temporal")
+            if cfg != "plain" and dd > 1:
+                kw["anis"] = [float(10 ** rng.uniform(-0.7, 0.7)) for _ in range(dd - 1)]
+                kw["angles"] = [float(rng.uniform(-3, 3)) for _ in range(dd * (dd - 1) // 2)]
+        with warnings.catch_warnings():
+            warnings.simplefilter("ignore")
+            try:
+                m = getattr(g, cls)(**kw)
+            except Exception as e:
+                dis.append({"what": "tplmix:constructor-raises", "cls": cls, "kw": kw, "real": f"{type(e).__name__}: {e}"})
+                continue
+        alpha = TPL_ALPHA[cls] if TPL_ALPHA[cls] is not None else kw["alpha"]
+        # the scales the MODEL will use are not known yet: lags are multiples of the raw upper length
+        up_raw = (kw["len_low"] + ls) / m.rescale
+        r = np.concatenate([[0.0], up_raw * np.array([0.02, 0.3, 1.0, 2.5]), up_raw * 10 ** rng.uniform(-1.5, 0.7, 2)])
+        # the untruncated terms at BOTH candidate scale pairs (snap / no snap); the model picks
+        lo_ns, up_ns, up_sn = kw["len_low"] / m.rescale, (kw["len_low"] + ls) / m.rescale, ls / m.rescale
+        with warnings.catch_warnings():
+            warnings.simplefilter("ignore")
+            t_ns = (tplstable_cor(r, up_ns, H, alpha), tplstable_cor(r, lo_ns, H, alpha) if lo_ns > 0 else np.ones_like(r))
+            t_sn = tplstable_cor(r, up_sn, H, alpha)
+        snap = abs(lo_ns) <= 1e-8
+        ops.append({"op": "c02_tpl_mix", "len_scale": f1(ls), "len_low": f1(kw["len_low"]), "rescale": f1(m.rescale), "hurst": f1(H),
+                    "t_up": proto.fbits(t_sn if snap else t_ns[0]), "t_lo": proto.fbits(t_ns[1])})
+        meta.append((cls, kw, cfg, m, r, lowmode, snap))
+    lean = run_driver(ops)
+    nontrivial = set()
+    for (cls, kw, cfg, m, r, lowmode, snap), l in zip(meta, lean):
+        case = {"cls": cls, "kw": kw}
+        if "error" in l:
+            dis.append({"what": "tplmix:driver-error", "lean": l, **case})
+            continue
+        lo, up, wu, wl, vf, lowr, upr = (float(proto.unbits([l[k]])[0]) for k in ("lo", "up", "w_up", "w_low", "var_factor", "len_low_rescaled", "len_up_rescaled"))
+        cor = proto.unbits(l["cor"])
+        lowkind = lowmode if isinstance(lowmode, str) else ("<" if lowmode < 1 else "=" if lowmode == 1 else ">") + "len_scale"
+        resckind = "default" if "rescale" not in kw else ("<1" if kw["rescale"] < 1 else ">1" if kw["rescale"] > 1 else "=1")
+        dist[f"tplmix:len_low {lowkind}, rescale {resckind}"] = dist.get(f"tplmix:len_low {lowkind}, rescale {resckind}", 0) + 1
+        dist["tplmix:" + cfg] = dist.get("tplmix:" + cfg, 0) + 1
+        nontrivial.add((cls, lowkind, resckind, cfg))
+        if bool(l["snap"]) != snap:
+            dis.append({"what": "tplmix:harness-snap-prediction", "lean": l["snap"], **case})
+            continue
+        # (a) the rescaled lengths (same float operations on both sides: exact)
+        for name, val in (("len_low_rescaled", lowr), ("len_up_rescaled", upr), ("len_rescaled", kw["len_scale"] / m.rescale)):
+            if float(getattr(m, name)) != val:
+                dis.append({"what": "tplmix:" + name, "real": float(getattr(m, name)), "lean": val, **case})
+        # (b) var_factor = total weight over the rescaled interval
+        a, b = upr ** (2 * m.hurst), lowr ** (2 * m.hurst)
+        if abs(float(m.var_factor()) - vf) > 4e-16 * (a + b) / (2 * m.hurst):
+            dis.append({"what": "tplmix:var_factor", "real": float(m.var_factor()), "lean": vf, **case})
+        if abs(m.var - kw["var"]) > 1e-13 * kw["var"] * (a + b) / (a - b):
+            dis.append({"what": "tplmix:var-round-trip", "real": float(m.var), "given": kw["var"], **case})
+        # (c) weights of the model: a normalised combination
+        amp = wu + wl
+        if not (wl >= 0 and wu >= 1 and abs(wu - wl - 1) <= 1e-14 * amp):
+            dis.append({"what": "tplmix:model-weights-not-normalised", "lean": [wu, wl], **case})
+        # (d) the real correlation through every route against the model's two-term value
+        tol = 4e-15 * amp + 1e-15
+        with warnings.catch_warnings():
+            warnings.simplefilter("ignore")
+            routes = {"correlation": np.asarray(m.correlation(r), float), "covariance/var": np.asarray(m.covariance(r), float) / m.var,
+                      "1-variogram": 1 - (np.asarray(m.variogram(r), float) - m.nugget) / m.var}
+            if m.latlon:
+                geo = m.geo_scale
+                ok = r <= 2 * geo
+                zeta = 2 * geo * np.arcsin(np.clip(r / (2 * geo), 0, 1))     # great-circle distance whose chord is r
+                routes["cov_yadrenko/var"] = np.where(ok, np.asarray(m.cov_yadrenko(zeta), float) / m.var, cor)
+            else:
+                dd = m.dim
+                A = matrix_isometrize(dd, m.angles, m.anis)
+                u = rng.randn(dd)
+                u /= np.linalg.norm(u)
+                pts = np.linalg.solve(A, np.outer(u, r))        # positions whose isometrized length is r
+                routes["cov_spatial/var"] = np.asarray(m.cov_spatial(pts), float) / m.var
+        for name, got in routes.items():
+            t = tol * (1 if name == "correlation" else 40) + (1e-12 if name in ("cov_yadrenko/var", "cov_spatial/var") else 0)
+            bad = ~(np.abs(got - cor) <= t)
+            # lags inside the N3 window are corrupted by the separate isclose snaps (the model receives the snapped terms
+            # too, so only the route lag reconstruction can differ there); there are none on this grid by construction
+            if bad.any():
+                j = int(np.argmax(np.where(bad, np.abs(got - cor), 0)))
+                dis.append({"what": "tplmix:" + name, "r": float(r[j]), "real": float(got[j]), "lean": float(cor[j]),
+                            "scales": [lo, up], "weights": [wu, wl], **case})
+    return len(ops), len(nontrivial)
+
+
 def correspondence(ctx):
     dist, dis = {}, []
     n1, samples = corr_table(ctx, dist, dis)
@@ -357,6 +578,15 @@ def correspondence(ctx):
     except Exception as e:
         n4 = 0
         dis.append({"what": "composition:exception", "real": f"{type(e).__name__}: {e}"})
+    try:
+        n5, k5 = corr_tplmix(ctx, dist, dis, ctx.scale(60, 1500))
+    except Exception as e:
+        n5, k5 = 0, 0
+        dis.append({"what": "tplmix:exception", "real": f"{type(e).__name__}: {e}"})
+    _FOCUS.clear()
+    _FOCUS.update(d["cls"] for d in dis if d.get("cls"))
+    if any(not d.get("cls") for d in dis):
+        _FOCUS.clear()        # a disagreement that names no class: the deep search covers everything
     # shrink: one disagreement per kind/class is enough
     seen, out = set(), []
     for d in dis:
@@ -364,25 +594,30 @@ def correspondence(ctx):
         if k not in seen:
             seen.add(k)
             out.append(d)
-    return {"evaluations": n1 + n2 + n3 + n4, "distinct_nontrivial": n1 + k2, "exhaustive": True,
+    return {"evaluations": n1 + n2 + n3 + n4 + n5, "distinct_nontrivial": n1 + k2 + k5, "exhaustive": True,
             "rule": "table: every (class, dim 1..4, plain/temporal/latlon/latlon+temporal) and spatial_dim variants — finite, all enumerated,"
                     " compared for model dim, warning, check_dim, optional arguments, exact defaults and bounds; probes: per class x dim x"
                     " argument the values {bound, +-1ulp, +-1e-9, +-1, interior, far} at both ends and random mixtures of 1-3 arguments,"
                     " distinct = (class, dim, raised argument+error case); setdim: all (class, d0, d1) histories with the edge values of the"
                     " dimension-dependent bounds; composition: cov_spatial / cov_axis / cov_yadrenko / isometrize against the composition used"
-                    " by the closure theorems (1e-12 relative)",
+                    " by the closure theorems (1e-12 relative), with random rescale and rescalable optional lengths; tplmix: the three TPL"
+                    " classes x len_low {0, snapped, just not snapped, 0.1/1/5 len_scale} x rescale {default, 2, 0.4, 3.7, 1, 0.13} (full grid) +"
+                    " random cases, hurst at both edges and inside, plain / anisotropic / temporal / lat-lon: rescaled lengths exact, var_factor,"
+                    " correlation = tplCor(tplScales) to 4e-15 x (w_up + w_low) through correlation, covariance, variogram, cov_spatial,"
+                    " cov_yadrenko; distinct = (class, len_low kind, rescale kind, configuration)",
             "samples": samples, "disagreements": out[:20], "distribution": dist}
 
 
 # ---------------------------------------------------------------------------------------------------------------
 # search
 # ---------------------------------------------------------------------------------------------------------------
-def edge_params(cls, d, rng, deep):
-    """parameter sets at the edges of every optional-argument interval (closed end: the end; open end: a hair inside)"""
+def edge_params(cls, d, rng, deep, **cfg):
+    """parameter sets at the edges of every optional-argument interval (closed end: the end; open end: a hair inside);
+    the bounds are read from a model built in the SAME configuration (temporal / lat-lon) as the one to be tested"""
     with warnings.catch_warnings():
         warnings.simplefilter("ignore")
         try:
-            m = getattr(gs(), cls)(dim=d)
+            m = getattr(gs(), cls)(dim=d, **cfg)
         except Exception:
             return [{}]
     ob = {a: tuple(b) for a, b in m.opt_arg_bounds.items()}
@@ -499,16 +734,58 @@ def small_lag_report(m):
     return None
 
 
-def diagnose(cls, d, m, C):
-    """stable key for a failing covariance matrix: name the root cause where it can be recognised"""
+def diagnose(cls, d, m, C, fallback=None):
+    """stable key for a covariance matrix that fails on a point set WITHOUT lags in the bands corrupted by the known
+    findings N1-N3 (see classify_failure)"""
     off = C - np.diag(np.diag(C))
     if np.all(np.isfinite(C)) and np.max(np.abs(off)) > m.sill * (1 + 1e-9):
-        return f"correlation-exceeds-one:{cls}"
-    if small_lag_report(m) is not None:
-        return f"small-lag-breakdown:{cls}"
+        # the bare key is the known finding N3 for the TPL classes (lags inside the isclose window)
+        return f"correlation-exceeds-one:{cls}" + (":beyond-snap-window" if cls in TPL_ALPHA else "")
     if not np.all(np.isfinite(C)):
         return f"non-finite-covariance:{cls}"
-    return f"negative-eigenvalue:{cls}:dim{d}"
+    return fallback or f"negative-eigenvalue:{cls}:dim{d}"
+
+
+def matrix_fails(m, C):
+    n = C.shape[0]
+    return (not np.all(np.isfinite(C))) or min_eig(C) < -1e-8 * n * m.var
+
+
+def classify_failure(cls, d, m, lag, C, fallback=None):
+    """key of a failing covariance matrix (lag = matrix of isotropic lags of the point set).  The known findings corrupt
+    small positive lags only: N3 (separate isclose snaps of the two TPL terms) lags in (0, snap_window], N1 / N2 (JBessel
+    underflow, Integral 0*inf) the band reported by small_lag_report.  A failure keeps the key of the known finding only
+    if it DISAPPEARS once the points that form such lags are removed; a matrix that still fails on the thinned point set
+    is a different defect and gets its own key.  Returns (key, min eigenvalue of the thinned matrix or None)."""
+    win, known = snap_window(m), f"correlation-exceeds-one:{cls}"
+    sl = small_lag_report(m)
+    if sl is not None:
+        win, known = max(win, 1.25 * sl["lags_over_len_rescaled"][1] * m.len_scale / m.rescale), f"small-lag-breakdown:{cls}"
+    if win > 0:
+        keep = []
+        for j in range(lag.shape[0]):
+            if all(not (0 < lag[i, j] <= win) for i in keep):
+                keep.append(j)
+        if len(keep) < lag.shape[0]:
+            Cs = C[np.ix_(keep, keep)]
+            if not matrix_fails(m, Cs):
+                return known, None
+            return diagnose(cls, d, m, Cs, fallback), (min_eig(Cs) if np.all(np.isfinite(Cs)) else float("nan"))
+    return diagnose(cls, d, m, C, fallback), None
+
+
+def spatial_lags(m, pos):
+    iso = np.asarray(m.isometrize(pos), float)
+    return np.linalg.norm(iso[:, :, None] - iso[:, None, :], axis=0)
+
+
+def has_new_finding(viol, cls):
+    """a concrete failing input of class cls that is not a listed known finding has already been found"""
+    try:
+        from core import match_known
+    except Exception:
+        return False
+    return any(v.get("case", {}).get("cls") == cls and not match_known("C02", v["key"]) for v in viol)
 
 
 def eig_scan(ctx, deep, viol, stats):
@@ -516,8 +793,11 @@ def eig_scan(ctx, deep, viol, stats):
     rng = np.random.RandomState(ctx.seed + 11)
     ev = 0
     worst = {}
-    lens = [0.4, 1.5, 6.0] if ctx.quick and not deep else [0.2, 0.7, 1.5, 4.0, 15.0]
-    for cls in CLASSES:
+    deep_all = deep
+    cyc = Cycle(ctx.seed)
+    def scan_class(cls, deep):
+        nonlocal ev
+        lens = [0.4, 1.5, 6.0] if ctx.quick and not deep else [0.2, 0.7, 1.5, 4.0, 15.0]
         for d in range(1, 5):
             with warnings.catch_warnings():
                 warnings.simplefilter("ignore")
@@ -529,20 +809,32 @@ def eig_scan(ctx, deep, viol, stats):
             if not ok:
                 continue
             plist = edge_params(cls, d, rng, deep or not ctx.quick)
+            # the edges of the bounds of the temporal model itself (the same list unless the bounds depend on the configuration)
+            plist_t = edge_params(cls, d, np.random.RandomState(ctx.seed + 17 + d), deep or not ctx.quick, temporal=True) if d > 1 else plist
             if ctx.quick and not deep and len(plist) > 8:
                 keep = list(range(0, len(plist), max(1, len(plist) // 8)))
                 plist = [plist[i] for i in keep]
+            if ctx.quick and not deep and len(plist_t) > 8:
+                plist_t = [plist_t[i] for i in range(0, len(plist_t), max(1, len(plist_t) // 8))]
             psets = point_sets(rng, d, deep or not ctx.quick)
-            for p in plist:
+            for ip in range(max(len(plist), len(plist_t))):
+                if deep and has_new_finding(viol, cls):
+                    break          # the deep tier exists to find a failing input; it has one
                 for ls in lens:
                     for cfg in ("plain", "aniso", "temporal"):
                         if cfg == "aniso" and d == 1:
                             continue
                         if cfg == "temporal" and d == 1:
                             continue
+                        src = plist_t if cfg == "temporal" else plist
+                        if ip >= len(src):
+                            continue
+                        p = src[ip]
                         kw = dict(dim=d, len_scale=ls, var=2.0, nugget=0.0, **p)
                         if cls.startswith("TPL") and cls != "TPLSimple" and rng.rand() < 0.5:
                             kw["len_low"] = max(kw.get("len_low", 0.0), float(rng.choice([0.1, 1.0])))
+                        # every combination of rescale (default, < 1, > 1) and rescalable optional lengths (x len_scale)
+                        apply_cycle(cls, kw, ls, cyc)
                         if cfg != "plain":
                             kw["anis"] = [float(10 ** rng.uniform(-0.7, 0.7)) for _ in range(d - 1)]
                             kw["angles"] = [float(rng.uniform(-3, 3)) for _ in range(d * (d - 1) // 2)]
@@ -561,7 +853,7 @@ def eig_scan(ctx, deep, viol, stats):
                                 ev += 1
                                 n = pos.shape[1]
                                 if not np.all(np.isfinite(C)):
-                                    viol.append({"key": diagnose(cls, d, m, C), "what": "covariance matrix has NaN/inf entries",
+                                    viol.append({"key": classify_failure(cls, d, m, spatial_lags(m, pos), C)[0], "what": "covariance matrix has NaN/inf entries",
                                                  "case": {"cls": cls, "kw": kw, "points": name}})
                                     continue
                                 lam = min_eig(C)
@@ -569,7 +861,9 @@ def eig_scan(ctx, deep, viol, stats):
                                 if rel < worst.get(cls, (0,))[0]:
                                     worst[cls] = (rel, d, cfg, name)
                                 if lam < -1e-8 * n * m.var:
-                                    viol.append({"key": diagnose(cls, d, m, C), "what": f"covariance matrix of an accepted model has min eigenvalue {lam:.3e} (n={n}, var={m.var}, max entry {np.max(C):.6g})",
+                                    key, lam_thin = classify_failure(cls, d, m, spatial_lags(m, pos), C)
+                                    viol.append({"key": key, "what": f"covariance matrix of an accepted model has min eigenvalue {lam:.3e} (n={n}, var={m.var}, max entry {np.max(C):.6g})"
+                                                                     + (f"; {lam_thin:.3e} after removing the points with lags inside the bands of the known findings N1-N3" if lam_thin is not None else ""),
                                                  "case": {"cls": cls, "kw": kw, "config": cfg, "points": name, "pos": pos.tolist() if n <= 64 else name, "min_eig": lam}})
         # lat-lon (model dim 3) and lat-lon + time (model dim 4)
         for temporal in (False, True):
@@ -582,13 +876,14 @@ def eig_scan(ctx, deep, viol, stats):
                     continue
             if not ok:
                 continue
-            plist = edge_params(cls, dd, rng, False)
+            plist = edge_params(cls, dd, rng, False, latlon=True, temporal=temporal)
             if ctx.quick and not deep and len(plist) > 6:
                 plist = [plist[i] for i in range(0, len(plist), max(1, len(plist) // 6))]
             for p in plist:
                 for ls in ([0.3, 1.5] if ctx.quick and not deep else [0.1, 0.3, 1.0, 3.0]):
                     geo = float(rng.choice([1.0, 6371.0]))
                     kw = dict(latlon=True, temporal=temporal, geo_scale=geo, len_scale=ls * geo, var=2.0, **p)
+                    apply_cycle(cls, kw, ls * geo, cyc)
                     if temporal:
                         kw["anis"] = [float(10 ** rng.uniform(-0.7, 0.7))]
                     with warnings.catch_warnings():
@@ -607,60 +902,85 @@ def eig_scan(ctx, deep, viol, stats):
                                 if C is None:
                                     continue
                                 ev += 1
-                                lam = min_eig(C)
+                                lam = min_eig(C) if np.all(np.isfinite(C)) else float("nan")
                                 rel = lam / (n * m.var)
                                 if rel < worst.get(cls, (0,))[0]:
                                     worst[cls] = (rel, dd, "latlon" + ("+t" if temporal else ""), name)
                                 if not np.all(np.isfinite(C)) or lam < -1e-8 * n * m.var:
-                                    viol.append({"key": f"negative-eigenvalue:{cls}:latlon{'+temporal' if temporal else ''}",
+                                    key, lam_thin = classify_failure(cls, dd, m, spatial_lags(m, ll), C,
+                                                                     f"negative-eigenvalue:{cls}:latlon{'+temporal' if temporal else ''}")
+                                    viol.append({"key": key,
                                                  "what": f"lat-lon covariance matrix ({route}) has min eigenvalue {lam:.3e} (n={n})",
                                                  "case": {"cls": cls, "kw": kw, "points": name, "min_eig": lam}})
                             if C2 is not None and not np.allclose(C1, C2, rtol=1e-9, atol=1e-9 * m.var):
                                 viol.append({"key": f"yadrenko-differs-from-chordal:{cls}", "what": "cov_yadrenko(great circle) differs from covariance(Euclidean distance of isometrized points)",
                                              "case": {"cls": cls, "kw": kw, "points": name, "maxdiff": float(np.max(np.abs(C1 - C2)))}})
+    for cls in CLASSES:
+        scan_class(cls, False)
+        # a broken obligation / correspondence (naming classes, if any): go deep there — the deep tier exists to find a
+        # failing input, so it is skipped for a class where the normal pass or a cheaper scan has already produced one
+        if deep_all and (not _FOCUS or cls in _FOCUS) and not has_new_finding(viol, cls):
+            scan_class(cls, True)
     stats["worst_relative_min_eig"] = {k: [float(v[0])] + list(v[1:]) for k, v in worst.items()}
     return ev
 
 
 def cor_scan(ctx, deep, viol):
-    """correlation(0) = 1 and |correlation| <= 1 on grids, at the edges of every bound"""
+    """correlation(0) = 1 and |correlation| <= 1 on grids, at the edges of every bound, for every combination of rescale
+    and rescalable optional lengths"""
     g = gs()
     rng = np.random.RandomState(ctx.seed + 12)
     ev = 0
+    cyc = Cycle(ctx.seed + 7)
     h = np.concatenate([[0.0], 10.0 ** np.linspace(-12, 2, 200 if ctx.quick else 2000), np.linspace(0, 12, 241)])
     for cls in CLASSES:
         for d in range(1, 5):
             for p in edge_params(cls, d, rng, False):
                 for ls in (0.3, 1.0, 7.0):
+                    kw = dict(dim=d, len_scale=ls, **p)
+                    apply_cycle(cls, kw, ls, cyc)
                     with warnings.catch_warnings():
                         warnings.simplefilter("ignore")
                         try:
-                            m = getattr(g, cls)(dim=d, len_scale=ls, **p)
+                            m = getattr(g, cls)(**kw)
                         except ValueError:
                             continue
-                        hh = h
+                        # the grid is in units of the rescaled length, so every rescale sees the same dimensionless lags
+                        hh = h if m.rescale == 1.0 else np.concatenate([h, h[1:] * (m.len_scale / m.rescale) / ls])
                         if hasattr(m, "len_low_rescaled") and m.len_low_rescaled > 0:
                             # the two terms of the TPL correlation switch to their r ~ 0 branch at different lags
-                            hh = np.concatenate([h, 1e-8 * np.exp(np.linspace(np.log(m.len_low_rescaled * 1.05), np.log(m.len_up_rescaled * 0.95), 7))])
+                            lo_r, up_r = m.len_low / m.rescale, (m.len_low + m.len_scale) / m.rescale
+                            hh = np.concatenate([hh, 1e-8 * np.exp(np.linspace(np.log(lo_r * 1.05), np.log(up_r * 0.95), 7)),
+                                                 np.linspace(0, 4 * up_r, 81)])
                         c = np.asarray(m.correlation(hh), float)
                         sl = small_lag_report(m)
                     ev += 1
+                    case = {"cls": cls, "dim": d, "params": p, "len_scale": ls, "kw": kw}
                     if sl is not None:
                         viol.append({"key": f"small-lag-breakdown:{cls}", "what": "correlation is NaN / collapses at small positive lags although the model is smooth at the origin",
-                                     "case": {"cls": cls, "dim": d, "params": p, "len_scale": ls, **sl}})
+                                     "case": {**case, **sl}})
                         continue
                     h_ = hh
                     if not np.all(np.isfinite(c)):
                         viol.append({"key": f"correlation-non-finite:{cls}", "what": "correlation is NaN/inf on the grid",
-                                     "case": {"cls": cls, "dim": d, "params": p, "len_scale": ls, "h": h_[~np.isfinite(c)][:5].tolist()}})
+                                     "case": {**case, "h": h_[~np.isfinite(c)][:5].tolist()}})
                         continue
                     if abs(c[0] - 1.0) > 1e-12:
-                        viol.append({"key": f"correlation-at-zero:{cls}", "what": f"correlation(0) = {c[0]!r} != 1",
-                                     "case": {"cls": cls, "dim": d, "params": p, "len_scale": ls}})
-                    if np.max(np.abs(c)) > 1.0 + 1e-9:
-                        i = int(np.argmax(np.abs(c)))
-                        viol.append({"key": f"correlation-exceeds-one:{cls}", "what": f"|correlation({h_[i]!r})| = {abs(c[i])!r} > 1",
-                                     "case": {"cls": cls, "dim": d, "params": p, "len_scale": ls}})
+                        viol.append({"key": f"correlation-at-zero:{cls}", "what": f"correlation(0) = {c[0]!r} != 1", "case": case})
+                    over = np.abs(c) > 1.0 + 1e-9
+                    if over.any():
+                        # known finding N3 lives in (0, snap_window]; an excess at any other lag has its own key
+                        win = snap_window(m)
+                        inside = over & (h_ > 0) & (h_ <= win)
+                        outside = over & ~inside
+                        if inside.any():
+                            i = int(np.argmax(np.where(inside, np.abs(c), 0)))
+                            viol.append({"key": f"correlation-exceeds-one:{cls}", "what": f"|correlation({h_[i]!r})| = {abs(c[i])!r} > 1", "case": case})
+                        if outside.any():
+                            i = int(np.argmax(np.where(outside, np.abs(c), 0)))
+                            viol.append({"key": f"correlation-exceeds-one:{cls}" + (":beyond-snap-window" if cls in TPL_ALPHA else ""),
+                                         "what": f"|correlation({h_[i]!r})| = {abs(c[i])!r} > 1" + (f" (lag outside the isclose window (0, {win:.3g}])" if win else ""),
+                                         "case": case})
     return ev
 
 
@@ -700,19 +1020,29 @@ def spectrum_scan(ctx, deep, viol, dims_override=None):
             if not ok:
                 continue
             plist = edge_params(cls, d, rng, False)[:3]
-            for p in plist:
-                with warnings.catch_warnings():
-                    warnings.simplefilter("ignore")
-                    m = getattr(g, cls)(dim=d, len_scale=1.0, rescale=1.0, **p)
-                s0 = radial_ft(lambda r: float(m.correlation(r)), d, 1e-3)
-                vals = np.array([radial_ft(lambda r: float(m.correlation(r)), d, float(k)) for k in ks])
-                ev += len(ks)
-                i = int(np.argmin(vals))
-                if vals[i] < -1e-7 * abs(s0):
-                    viol.append({"key": f"negative-spectrum:{cls}:dim{d}", "what": f"radial Fourier transform in dimension {d} is negative: S({ks[i]:.3f}) = {vals[i]:.3e} (S(0) ~ {s0:.3e})",
-                                 "case": {"cls": cls, "dim": d, "params": p, "k": float(ks[i])}})
+            # (len_scale, rescale): the unit configuration for every parameter set, and non-default scalings (support
+            # radius len_scale / rescale computed here, integration runs 25 % beyond it) for one of them (all: thorough)
+            scalings = [(1.0, 1.0)]
+            extra = [(2.5, None), (0.7, 3.0), (3.0, 0.4)]
+            for ip, p in enumerate(plist):
+                todo = scalings + ([extra[(ctx.seed + ip + d) % 3]] if (ip == 0 or deep or not ctx.quick) else [])
+                for ls_, rs_ in todo:
+                    with warnings.catch_warnings():
+                        warnings.simplefilter("ignore")
+                        m = getattr(g, cls)(dim=d, len_scale=ls_, **({} if rs_ is None else {"rescale": rs_}), **p)
+                    sup = m.len_scale / m.rescale
+                    upper = sup if (ls_, rs_) == (1.0, 1.0) else 1.25 * sup
+                    kk_ = ks / sup
+                    s0 = radial_ft(lambda r: float(m.correlation(r)), d, 1e-3 / sup, upper)
+                    vals = np.array([radial_ft(lambda r: float(m.correlation(r)), d, float(k), upper) for k in kk_])
+                    ev += len(ks)
+                    i = int(np.argmin(vals))
+                    if vals[i] < -1e-7 * abs(s0):
+                        viol.append({"key": f"negative-spectrum:{cls}:dim{d}", "what": f"radial Fourier transform in dimension {d} is negative: S({kk_[i]:.3f}) = {vals[i]:.3e} (S(0) ~ {s0:.3e})",
+                                     "case": {"cls": cls, "dim": d, "params": p, "k": float(kk_[i]), "len_scale": ls_, "rescale": rs_}})
     # analytic spectral densities shipped with the models
     kk = np.concatenate([[0.0], 10.0 ** np.linspace(-3, 2, 60)])
+    cyc = Cycle(ctx.seed + 3)
     for cls in CLASSES:
         for d in range(1, 4):
             with warnings.catch_warnings():
@@ -724,16 +1054,195 @@ def spectrum_scan(ctx, deep, viol, dims_override=None):
                 if not m0.check_dim(d) or type(m0).spectral_density is g.CovModel.spectral_density:
                     continue
                 for p in edge_params(cls, d, rng, False):
-                    try:
-                        m = getattr(g, cls)(dim=d, **p)
-                        s = np.asarray(m.spectral_density(kk), float)
-                    except Exception:
-                        continue
-                    ev += 1
-                    s = s[np.isfinite(s)]
-                    if s.size and s.min() < -1e-10 * np.max(np.abs(s)):
-                        viol.append({"key": f"negative-spectral-density:{cls}", "what": f"shipped spectral_density is negative ({s.min():.3e})",
-                                     "case": {"cls": cls, "dim": d, "params": p}})
+                    for kw in (dict(dim=d, **p), apply_cycle(cls, dict(dim=d, len_scale=1.0, **p), 1.0, cyc)):
+                        try:
+                            m = getattr(g, cls)(**kw)
+                            s = np.asarray(m.spectral_density(kk * m.rescale / m.len_scale), float)
+                        except Exception:
+                            continue
+                        ev += 1
+                        s = s[np.isfinite(s)]
+                        if s.size and s.min() < -1e-10 * np.max(np.abs(s)):
+                            viol.append({"key": f"negative-spectral-density:{cls}", "what": f"shipped spectral_density is negative ({s.min():.3e})",
+                                         "case": {"cls": cls, "dim": d, "params": p, "kw": kw}})
+    return ev
+
+
+def tpl_mixture_reference(r, lo, up, hurst, alpha):
+    """the defining superposition 2H / (up^2H - lo^2H) * int_lo^up lam^(2H-1) exp(-(r/lam)^alpha) dlam by quadrature in
+    t = log(lam) (independent of gstools' closed form); returns (value, error estimate)"""
+    from scipy import integrate
+    a0 = math.log(lo) if lo > 0 else math.log(up) - 60.0 / (2 * hurst)      # e^(2H t) < e^-60 below: negligible weight
+    f = lambda t: math.exp(2 * hurst * t - (r * math.exp(-t)) ** alpha)
+    pts = sorted({min(max(math.log(r) + s_, a0), math.log(up)) for s_ in (-2.0, 0.0, 2.0)}) if r > 0 else None
+    val, err = integrate.quad(f, a0, math.log(up), epsabs=1e-14, epsrel=1e-12, limit=400, points=pts)
+    norm = 2 * hurst / (up ** (2 * hurst) - lo ** (2 * hurst))
+    return norm * val, norm * err
+
+
+def mix_scan(ctx, deep, viol):
+    """TPL classes against the quadrature of their DEFINING superposition over (len_low / rescale, (len_low + len_scale) /
+    rescale] — non-negative weights lam^(2H-1), normalised — for the full grid class x hurst (edges, interior) x len_low
+    (0, 0.1, 1, 5 x len_scale) x rescale (default, 2, 0.4, 3.7, 1, 0.13), dims 1-3, through correlation and one of
+    cov_spatial (anisotropic, rotated) / temporal / cov_yadrenko; random cases on top (thorough / deep)."""
+    from gstools.tools.geometric import matrix_isometrize
+    g = gs()
+    rng = np.random.RandomState(ctx.seed + 15)
+    ev = 0
+    hursts = [nudge(0.1, 1), 0.25, 0.5, 0.8, nudge(1.0, -1)]
+    cases = []
+    i = 0
+    for cls in TPL_ALPHA:
+        alphas = [None] if TPL_ALPHA[cls] is not None else ([1e-3, 0.7, 1.5, 2.0] if (deep or not ctx.quick) else [[0.7, 1.5], [1e-3, 2.0]][ctx.seed % 2])
+        for al in alphas:
+            for H in hursts:
+                for lowf in LOW_FACTORS:
+                    for resc in RESCALES:
+                        cases.append((cls, al, H, [0.7, 9.0, 2.0][i % 3], lowf, resc, i))
+                        i += 1
+    if ctx.quick and not deep:      # half of the grid per run, alternating with the seed; every (len_low, rescale) pair stays
+        cases = [c for c in cases if (c[6] // (len(LOW_FACTORS) * len(RESCALES)) + ctx.seed) % 2 == 0]
+    for _ in range(0 if ctx.quick and not deep else 600):
+        cls = list(TPL_ALPHA)[rng.randint(3)]
+        cases.append((cls, None if TPL_ALPHA[cls] is not None else float(rng.uniform(0.05, 2.0)), float(rng.uniform(0.1001, 0.9999)),
+                      float(10 ** rng.uniform(-1, 1.3)), float(10 ** rng.uniform(-2, 1)), float(10 ** rng.uniform(-1, 1)), len(cases)))
+    for cls, al, H, ls, lowf, resc, i in cases:
+        kw = dict(len_scale=ls, hurst=H, len_low=lowf * ls, var=2.0)
+        if al is not None:
+            kw["alpha"] = al
+        if resc is not None:
+            kw["rescale"] = resc
+        cfg = ["plain", "aniso", "temporal", "latlon"][i % 4]
+        d = 1 + i % 3
+        if cfg == "latlon":
+            kw.update(latlon=True, geo_scale=float([1.0, 6371.0][i % 2]))
+        else:
+            dd = d + int(cfg == "temporal")
+            kw.update(dim=dd, temporal=cfg == "temporal")
+            if cfg != "plain" and dd > 1:
+                kw["anis"] = [float(10 ** rng.uniform(-0.7, 0.7)) for _ in range(dd - 1)]
+                kw["angles"] = [float(rng.uniform(-3, 3)) for _ in range(dd * (dd - 1) // 2)]
+        with warnings.catch_warnings():
+            warnings.simplefilter("ignore")
+            try:
+                m = getattr(g, cls)(**kw)
+            except ValueError as e:
+                viol.append({"key": f"edge-parameter-rejected:{cls}", "what": str(e), "case": {"cls": cls, "kw": kw}})
+                continue
+            alpha = TPL_ALPHA[cls] if al is None else al
+            lo, up = kw["len_low"] / m.rescale, (kw["len_low"] + ls) / m.rescale       # the documented rescaled scales
+            r = up * np.array([0.05, 0.4, 1.3, 3.0])
+            got = {"correlation": np.asarray(m.correlation(r), float)}
+            if cfg == "latlon":
+                geo = m.geo_scale
+                ok = r < 2 * geo
+                zeta = 2 * geo * np.arcsin(np.clip(r / (2 * geo), 0, 1))
+                got["cov_yadrenko/var"] = np.where(ok, np.asarray(m.cov_yadrenko(zeta), float) / m.var, np.nan)
+            else:
+                A = matrix_isometrize(m.dim, m.angles, m.anis)
+                u = rng.randn(m.dim)
+                u /= np.linalg.norm(u)
+                got["cov_spatial/var"] = np.asarray(m.cov_spatial(np.linalg.solve(A, np.outer(u, r))), float) / m.var
+        a, b = up ** (2 * H), lo ** (2 * H)
+        amp = (a + b) / (a - b)
+        for j, rj in enumerate(r):
+            ref, err = tpl_mixture_reference(float(rj), lo, up, H, alpha)
+            ev += 1
+            for route, vals in got.items():
+                if np.isnan(vals[j]) and route != "correlation":
+                    continue
+                if not abs(vals[j] - ref) <= 2e-10 * amp + 10 * err:
+                    viol.append({"key": f"tpl-mixture:{cls}", "what": f"{route}({rj:.6g}) = {vals[j]!r}, but the defining superposition of modes over the rescaled truncation interval"
+                                                                      f" ({lo:.6g}, {up:.6g}] with weights lam^(2H-1) gives {ref!r}",
+                                 "case": {"cls": cls, "kw": kw, "r": float(rj), "route": route, "got": float(vals[j]), "mixture": ref, "quad_err": err}})
+    return ev
+
+
+def rescale_scan(ctx, deep, viol):
+    """every class: (i) each property `X_rescaled` equals X / rescale (X = len_scale for `len`; discovered by name);
+    (ii) the model is a function of the rescaled lengths only — (len_scale, rescale = s, optional lengths l) and
+    (len_scale / s, rescale = 1, l / s) have the same correlation, covariance matrix entries, var_factor and shipped
+    spectral density — at the edges of the shape parameters, dims 1-3, plain / anisotropic / temporal / lat-lon."""
+    g = gs()
+    rng = np.random.RandomState(ctx.seed + 16)
+    ev = 0
+    hgrid = np.concatenate([[0.0], 10.0 ** np.linspace(-6, 1.5, 40)])
+    kgrid = 10.0 ** np.linspace(-2, 1.5, 12)
+    it = 0
+    for cls in CLASSES:
+        lens = rescalable_opt_args(cls)
+        for d in range(1, 4):
+            plist = edge_params(cls, d, rng, False)
+            if ctx.quick and not deep and len(plist) > 4:
+                plist = [plist[k] for k in sorted(set(rng.choice(len(plist), 4, replace=False)))]
+            for p in plist:
+                for s_ in ([2.0, 0.4] if ctx.quick and not deep else [2.0, 0.4, 3.7, 0.13]):
+                    it += 1
+                    ls = [0.7, 9.0, 2.0][it % 3]
+                    lowf = LOW_FACTORS[it % len(LOW_FACTORS)]
+                    cfg = ["plain", "aniso", "temporal", "latlon"][(it // 3) % 4]
+                    base = dict(p)
+                    if lowf > 0:
+                        base.update({a: lowf * ls for a in lens})
+                    scaled = {k: (v / s_ if k in lens else v) for k, v in base.items()}
+                    extra = {}
+                    with warnings.catch_warnings():
+                        warnings.simplefilter("ignore")
+                        if not getattr(g, cls)(dim=d).check_dim(3 if cfg == "latlon" else d + int(cfg == "temporal")):
+                            cfg = "plain"          # the class is not valid in the dimension of that configuration
+                    if cfg == "latlon":
+                        extra = dict(latlon=True, geo_scale=6371.0)
+                    else:
+                        dd = d + int(cfg == "temporal")
+                        extra = dict(dim=dd, temporal=cfg == "temporal")
+                        if cfg != "plain" and dd > 1:
+                            extra["anis"] = [float(10 ** rng.uniform(-0.7, 0.7)) for _ in range(dd - 1)]
+                            extra["angles"] = [float(rng.uniform(-3, 3)) for _ in range(dd * (dd - 1) // 2)]
+                    with warnings.catch_warnings():
+                        warnings.simplefilter("ignore")
+                        try:
+                            m1 = getattr(g, cls)(len_scale=ls, rescale=s_, var=2.0, **base, **extra)
+                            m2 = getattr(g, cls)(len_scale=ls / s_, rescale=1.0, var=2.0, **scaled, **extra)
+                        except ValueError:
+                            continue
+                        if not m1.check_dim(m1.dim):
+                            continue
+                        case = {"cls": cls, "kw1": dict(len_scale=ls, rescale=s_, **base, **extra), "kw2": dict(len_scale=ls / s_, rescale=1.0, **scaled, **extra)}
+                        ev += 1
+                        # (i)
+                        for name in rescaled_names(cls):
+                            raw = m1.len_scale if name == "len" else getattr(m1, name)
+                            val = float(getattr(m1, name + "_rescaled"))
+                            if not abs(val - raw / s_) <= 4e-16 * abs(raw / s_):
+                                viol.append({"key": f"rescaled-attribute:{cls}:{name}", "what": f"{name}_rescaled = {val!r} but {name} / rescale = {raw / s_!r}", "case": case})
+                        # (ii)
+                        hh = hgrid * ls / s_
+                        win = max(snap_window(m1), snap_window(m2))
+                        hh = hh[(hh == 0) | (hh > win * 1.001)]          # N3: lags inside the isclose window are a known finding
+                        c1, c2 = np.asarray(m1.correlation(hh), float), np.asarray(m2.correlation(hh), float)
+                        amp = 1.0
+                        if cls in TPL_ALPHA and base.get("len_low", 0) > 0:
+                            a, b = ((base["len_low"] + ls) / s_) ** (2 * base["hurst"]), (base["len_low"] / s_) ** (2 * base["hurst"])
+                            amp = (a + b) / (a - b)
+                        fin = np.isfinite(c1) & np.isfinite(c2)          # NaN collapse at small lags is N1 / N2 (reported by cor_scan)
+                        if np.any(np.abs(c1 - c2)[fin] > 1e-12 * amp) or np.any(np.isfinite(c1) != np.isfinite(c2)):
+                            k = int(np.argmax(np.where(fin, np.abs(c1 - c2), 0)))
+                            viol.append({"key": f"rescale-invariance:{cls}", "what": f"correlation({hh[k]!r}) = {c1[k]!r} with (len_scale, rescale) = ({ls}, {s_}) but {c2[k]!r} with ({ls / s_}, 1)"
+                                                                                  " and the optional lengths divided by the same factor", "case": case})
+                        v1, v2 = float(m1.var), float(m2.var)
+                        f1_, f2_ = float(m1.var_factor()), float(m2.var_factor())
+                        if abs(f1_ - f2_) > 1e-13 * amp * abs(f2_) or abs(v1 - v2) > 1e-12 * amp * abs(v2):
+                            viol.append({"key": f"rescale-invariance:{cls}", "what": f"var_factor / var differ: {f1_!r}, {v1!r} vs {f2_!r}, {v2!r}", "case": case})
+                        if type(m1).spectral_density is not g.CovModel.spectral_density:
+                            kk = kgrid * s_ / ls
+                            try:
+                                s1, s2 = np.asarray(m1.spectral_density(kk), float), np.asarray(m2.spectral_density(kk), float)
+                            except Exception:
+                                s1 = s2 = np.zeros(1)
+                            fin = np.isfinite(s1) & np.isfinite(s2)
+                            if np.any(np.abs(s1 - s2)[fin] > 1e-9 * amp * (np.abs(s2)[fin] + 1e-300)):
+                                k = int(np.argmax(np.where(fin, np.abs(s1 - s2) / (np.abs(s2) + 1e-300), 0)))
+                                viol.append({"key": f"rescale-invariance:{cls}", "what": f"spectral_density({kk[k]!r}) = {s1[k]!r} vs {s2[k]!r} for the equivalent model with rescale = 1", "case": case})
     return ev
 
 
@@ -758,12 +1267,16 @@ def stale_dim_scan(ctx, viol):
                         continue   # a fresh model accepts it too: nothing stale
                     except ValueError:
                         pass
+                    if hit is not None:
+                        continue       # one witness per class is reported; without the defect every history is evaluated
                     worst = 0.0
                     for name, pos in point_sets(rng, d1, True):
                         C = cov_matrix_spatial(m, pos)
                         ev += 1
                         lam = min_eig(C) / (pos.shape[1] * m.var)
                         worst = min(worst, lam)
+                        if worst < -1e-8:
+                            break
                     if worst < -1e-8 and (hit is None or worst < hit[0]):
                         hit = (worst, d0, d1)
         if hit:
@@ -841,8 +1354,11 @@ def search(ctx, deep=False):
     viol, stats = [], {}
     e4 = _safe("directed", viol, directed, ctx, viol)
     e4 += _safe("stale_dim_scan", viol, stale_dim_scan, ctx, viol)
-    e1 = _safe("eig_scan", viol, eig_scan, ctx, deep, viol, stats)
+    # cheap scans first: the (expensive) eigenvalue scan only goes deep for classes without a failing input so far
+    e5 = _safe("mix_scan", viol, mix_scan, ctx, deep, viol)
+    e6 = _safe("rescale_scan", viol, rescale_scan, ctx, deep, viol)
     e2 = _safe("cor_scan", viol, cor_scan, ctx, deep, viol)
+    e1 = _safe("eig_scan", viol, eig_scan, ctx, deep, viol, stats)
     e3 = _safe("spectrum_scan", viol, spectrum_scan, ctx, deep, viol)
     # one violation per key
     seen, out = set(), []
@@ -850,8 +1366,16 @@ def search(ctx, deep=False):
         if v["key"] not in seen:
             seen.add(v["key"])
             out.append(v)
-    return {"evaluations": e1 + e2 + e3 + e4, "violations": out[:12],
+    try:        # the report is cut at 12 keys: findings that are not listed as known come first
+        from core import match_known
+        out.sort(key=lambda v: bool(match_known("C02", v["key"])))
+    except Exception:
+        pass
+    return {"evaluations": e1 + e2 + e3 + e4 + e5 + e6, "violations": out[:12],
             "summary": f"{e1} covariance matrices (lattice / clusters / random / sphere; plain, anisotropic-rotated, temporal, lat-lon via isometrize and via cov_yadrenko)"
                        f" at the edges of every bound: min eigenvalue >= -1e-8 n var; {e2} correlation grids (cor(0)=1, |cor|<=1); {e3} radial-Fourier-transform sign"
-                       f" evaluations (quadrature for compact supports, shipped spectral densities); {e4} matrices on stale-dimension histories (D8)."
+                       f" evaluations (quadrature for compact supports, shipped spectral densities); {e4} matrices on stale-dimension histories (D8);"
+                       f" {e5} TPL correlations against the quadrature of the defining superposition over the rescaled truncation interval; {e6} model pairs"
+                       f" (len_scale, rescale=s, lengths) vs (len_scale/s, 1, lengths/s) and X_rescaled = X / rescale.  Every scan walks through all"
+                       f" combinations of rescale {RESCALES} (None = default) and rescalable optional lengths {LOW_FACTORS} x len_scale."
                        f" worst min-eig/(n var) per class: {stats.get('worst_relative_min_eig', {})}"}
